@@ -23,7 +23,7 @@ CLAIMS = {
                 "rounds — each round as large as the previous round's count of dice at the add line — successes counted over all "
                 "dice of all rounds; Double Cross sums 10 per round with a critical die, else the round's highest die). The model is tied to roll_func.go by per-family correspondence streams; an independent "
                 "game-rule oracle re-derives every result from the dice the implementation shows (also through VM syntax), "
-                "and illegal parameter tuples must be rejected by the VM.",
+                "and illegal parameter tuples must be rejected by the VM. wodInit_saves / diceWod_restores (VM model): a pool term puts the enclosing term's parameters aside when it starts and the enclosing term gets exactly them back when the inner roll completes, for every stack, heap, stream and budget — nested pool terms cannot leak their m / k / q.",
         "note": TB + "Every dice family of roll_func.go has its rule theorem. sort.Slice is modelled as merge sort (equal ints are indistinguishable).",
         "technique": "Lean 4 theorems on an executable model of roll_func.go + differential streams + rule oracle",
     },
